@@ -270,6 +270,65 @@ CHECKS = {
 PENDING_REASON = "check not built yet in this round (design in DESIGN.md section 3); not claimed"
 
 
+# Extensions made after the seeding waves (appended to the level text / note of the check).
+ADDENDA = {
+    "C02": " The format(image, spec) entry point is exercised with every alpha-field form (`#`, thresholds, hex colours "
+           "including digits-only ones, black and upper-case), and frames of mixed modes within one multi-page file are "
+           "reached from every other page.",
+    "C03": " Interaction dimensions: render method set on the instance or class x per-call override (all pairs, kitty "
+           "and iterm2, sources smaller and larger than the render with heights not divisible by the line count); "
+           "jpeg_quality configured on ITerm2Image x a subclass x the instance (expectation derived from the "
+           "configuration, never read back); blend=False with multi-chunk strips; animated PNG/GIF still frames against "
+           "the read-from-file gate.",
+    "C05": " Plus real old-API draw() calls (still / animated, every style, terminal identity and mix setting, pad "
+           "width/height below / equal / above the render and terminal-relative) judged on the screen per frame, and "
+           "AlignedPadding subclasses (trivial; overriding _get_exact_dimensions_) x relative/absolute dimensions through "
+           "resolve, to_exact, pad, render, RenderIterator(), set_padding, draw(): a relative instance behaves as the same "
+           "class with the clamped absolute dimensions.",
+    "C06": " Plus: kitty versions around the blend / clear-by-z gate and style-specific draw() parameters (z_index, mix, "
+           "compress); histories within one execution (dynamic-size image drawn, terminal resized, drawn again); "
+           "INDEFINITE streams of 1-5 frames in both frame-numbering modes; renderables whose render data fixes a "
+           "per-iteration size different from render_size; AlignedPadding subclasses; standard output not being the "
+           "active terminal (fd 1 / COLUMNS x LINES report another size): all size rules and relative dimensions refer "
+           "to the active terminal.",
+    "C07": " Delivery disciplines unbuffered / fully buffered / line-buffered (a fault during the hand-over at flush() "
+           "delivers any prefix of everything pending); pre-seeked images and renderables; two-draw histories with the "
+           "tty attributes changed in between; faults at every write / drain / wait call of the terminal queries that a "
+           "render issues inside draw().",
+    "C08": " A terminal-resize operation with terminal-relative paddings (resolved at the moment of set_padding / "
+           "construction) and a harness renderable whose output depends on the duration setting are part of the "
+           "alphabet.",
+    "C10": " The render-data finalizer hook and every call into a (subclassed) padding object during size validation / "
+           "iterator priming are fault points too (OSError, KeyboardInterrupt); a constructor that raised is followed by "
+           "a garbage collection.",
+    "C11": " Dynamic sizes (FIT, FIT_TO_WIDTH) with terminal resizes between and inside cached loops are part of the "
+           "fault-free iteration searches (depth 7 / 8).",
+    "C13": " Fault exceptions: KeyboardInterrupt, SystemExit, a custom BaseException subclass, OSError (+ termios.error, "
+           "BrokenPipeError in thorough) at every point; draw() is exercised with a renderable whose finalizer hook "
+           "_finalize_render_data_ is itself a fault point.",
+    "C14": " Including synchronized functions obtained by decorating the same function object twice or an already "
+           "synchronized wrapper again, and reply schedules in which a reply (or its tail) arrives after its caller's "
+           "query timed out and before the next caller's query (the next caller must not read it as its own).",
+    "C15": " The probes' memoized bodies also return None / False / 0 / () (a falsy result is a result) and can be made "
+           "to raise once; get_cell_size() can be interrupted at representative tty calls; a process start (cache "
+           "migration) is part of the cell alphabet; the probe and cell searches are repeated in a world where standard "
+           "output is not the active terminal (shutil's size is a constant differing from every terminal size).",
+    "C18": " A fault dimension: the k-th write of a redraw raises EAGAIN once, for every k and every transition out of "
+           "the root scenes; whatever a failed redraw wrote must be bracketed, and the following redraws are judged by "
+           "the full ghost oracle.",
+    "C19": " A non-ASCII decimal digit pass (every string over the context alphabet plus an Arabic-Indic / fullwidth digit "
+           "up to length 5 / 6, and every menu sentence with one digit substituted) must be rejected; entry-point "
+           "orderings (UrwidImage first, cached ImageIterator across a size change) are compared with the explicit "
+           "composition.",
+    "C20": " Class trees include multiple inheritance with a non-style mixin (first, last, below the root) and a diamond; "
+           "the reference resolves along Python's MRO computed on a shadow hierarchy.",
+}
+NOTE_ADDENDA = {
+    "C01": " draw()-level frame re-positioning (_display_animated) is outside this statement and owned by C06 / C05; "
+           "C01 judges render strings and ImageIterator frames only.",
+}
+
+
 def main():
     props = [json.loads(l) for l in open(os.path.join(HERE, "properties.jsonl"))]
     checks, na = [], []
@@ -278,6 +337,8 @@ def main():
         mod = os.path.join(HERE, "vlib", "props", pid.lower() + ".py")
         if pid in CHECKS and os.path.exists(mod):
             cat, tech, text, note, ref = CHECKS[pid]
+            text += ADDENDA.get(pid, "")
+            note += NOTE_ADDENDA.get(pid, "")
             checks.append(dict(
                 property_id=pid,
                 quick_cmd=f"./check {pid} --tier quick",
